@@ -97,6 +97,7 @@ type CallGhost struct {
 }
 
 type FuncContract struct {
+	NoCall     []string // site names that must not occur (reachably) in the function
 	Name       string
 	Pkg        string
 	Trusted    bool
@@ -191,7 +192,7 @@ func parseContractFile(path, pkg string) (*ContractFile, error) {
 	}
 	// join continuation lines: a line that does not start with a keyword continues the previous one
 	kw := map[string]bool{"func": true, "requires": true, "ensures": true, "assigns": true, "ghost": true, "ghostparam": true,
-		"loop": true, "call": true, "trusted": true, "pred": true, "lemma": true, "pure": true, "maypanic": true,
+		"loop": true, "call": true, "trusted": true, "pred": true, "lemma": true, "pure": true, "maypanic": true, "nocall": true,
 		"guarded_by": true, "return": true, "note": true, "entry": true, "upred": true, "holds": true, "keeps": true, "locks": true, "assume": true, "nonnil": true, "readonly": true}
 	var joined []rawLine
 	for _, r := range raws {
@@ -292,6 +293,16 @@ func parseContractFile(path, pkg string) (*ContractFile, error) {
 			cur.Assigns = []string{"nothing"}
 		case "maypanic":
 			cur.MayPanic = true
+		case "nocall":
+			// nocall SITE, ...: the function has no reachable site of that name (e.g. no channel operation of its own)
+			if cur == nil {
+				return nil, fail(fmt.Errorf("clause outside func"))
+			}
+			for _, a := range splitTop(rest, ',') {
+				if a = strings.TrimSpace(a); a != "" {
+					cur.NoCall = append(cur.NoCall, a)
+				}
+			}
 		case "note":
 			if cur != nil {
 				cur.Notes = append(cur.Notes, rest)
